@@ -519,6 +519,10 @@ def disturb_other_algorithm():
   alg = build_algorithm('fed_avg', 2)
   ds = make_dataset([1, 2, 3, 0, -1, 0, 2, 1], 3)
   alg.apply(alg.init(init_params([1, -1, 2])), [(b'zz', ds, jax.random.PRNGKey(3))])
+  # ... and the mere construction of every compression aggregator (setting up an
+  # object is not an event a later round may notice)
+  for name in AGGS:
+    build_aggregator(name, 2, 1)
 
 
 class Entry:
